@@ -147,6 +147,32 @@ def check_writer(ctx, m, fn: ast.FunctionDef, label: str, informational: bool = 
                construct="%s in %s" % (short(oc, 80), source.qualname(fn)))
         if not ok_a1:
             continue
+        # the temporary path is never the state file itself: no arm of the local's definition (x if c else y) is the rename's destination,
+        # and the rename is not skipped on a normal path from the open to the exit
+        def arms(e: ast.AST, depth: int = 0) -> List[ast.AST]:
+            if isinstance(e, ast.IfExp):
+                return arms(e.body, depth) + arms(e.orelse, depth)
+            if isinstance(e, ast.BoolOp):
+                return [a for v in e.values for a in arms(v, depth)]
+            if isinstance(e, ast.Name) and depth < 3:
+                vals = match.assigned_value(fn, e.id)
+                if vals:
+                    return [a for v in vals for a in arms(v, depth + 1)] + [e]
+            return [e]
+        dests = {source.src(rc.args[1]) for (_, rc) in my_rens}
+        aliased = [a for a in arms(path_expr) if source.src(a) in dests] if path_expr is not None else []
+        ctx.ob("C14.A1-temp-then-rename", oc, not aliased,
+               "%s: no definition of %s is the state file itself" % (label, psrc) if not aliased else
+               "%s: %s is the state file itself on one arm of its definition (%s): on that arm the file is written in place - a process that "
+               "dies between open and close leaves a truncated %s, which is neither the previous version (absent) nor the new one, and later "
+               "loads do not regenerate an existing file" % (label, psrc, short(match.assigned_value(fn, path_expr.id)[0], 70)
+                                                            if isinstance(path_expr, ast.Name) and match.assigned_value(fn, path_expr.id) else psrc, label),
+               construct="%s: temporary path is never the destination" % source.qualname(fn))
+        published = all(cfg.every_path_from_passes(on, [rn for (rn, _) in my_rens], ignore_labels=("exc", "except", "raise", "uncaught")) for _ in [0])
+        ctx.ob("C14.A1-temp-then-rename", my_rens[0][1], published,
+               "%s: every normal path from the write reaches the rename" % label if published else
+               "%s: the rename of %s is skipped on a normal path after the write: what was written is then either lost or was written in place"
+               % (label, psrc), construct="%s: rename on every normal path" % source.qualname(fn))
         # A2: rename only on the success path of this write
         same_path_opens = [o2 for (o2, c2) in opens if c2.args and source.src(c2.args[0]) == psrc]
         handlers = enclosing_try_handlers(oc, fn)
@@ -455,6 +481,19 @@ def run(ctx) -> None:
                            "'energies-100%%.csv' raises InterpolationSyntaxError out of updateLogs() after output.txt was renamed into place, "
                            "output.json stays at the previous version (and '%%(name)s' in a value is silently rewritten)" % last_attr(c),
                            construct="%s: ConfigParser(interpolation=None)" % last_attr(c))
+            # the listing is read through an open handle: ConfigParser.read(<names>) silently skips a file it cannot open, the caller's
+            # 'except IOError' never sees the failure and an empty output.json is renamed over the good one
+            parsers = {t.id for a in source.walk_own(callee) if isinstance(a, ast.Assign) and isinstance(a.value, ast.Call)
+                       and (call_name(a.value) or "").split(".")[-1] in ("ConfigParser", "SafeConfigParser", "RawConfigParser")
+                       for t in a.targets if isinstance(t, ast.Name)}
+            for k in source.calls_in(callee):
+                if last_attr(k) in ("read", "read_file", "readfp", "read_string", "read_dict") and isinstance(k.func.value, ast.Name) and k.func.value.id in parsers:
+                    silent_read = last_attr(k) == "read"
+                    ctx.ob("C14.A2-rename-on-success-only", k, not silent_read,
+                           "%s fills the parser through %s: a listing that cannot be opened raises" % (last_attr(c), last_attr(k)) if not silent_read else
+                           "%s fills the parser with ConfigParser.read(<file names>), which SKIPS a file it cannot open: when output.txt is "
+                           "unreadable (EIO, EACCES) the derived listing is empty, no IOError reaches updateLogs' handler, and '{}' is renamed "
+                           "over a good output.json" % last_attr(c), construct="%s: parser filled from an open handle" % last_attr(c))
     ctx.floor("C14.R5-escape-agreement", n_back, 1, "parsers that read output.txt back to derive output.json")
     # what is written is the escaped value (not the raw one)
     writes = [c for c in source.calls_in(w) if last_attr(c) == "write"]
